@@ -708,6 +708,14 @@ func underOK(info *types.Info, w *World, at ast.Node, okVar types.Object) bool {
 				}
 			}
 		}
+		// !ok || <use>: the right operand runs only when the left one was false
+		if be, ok := p.(*ast.BinaryExpr); ok && be.Op == token.LOR && child == ast.Node(be.Y) {
+			for _, dj := range disjuncts(be.X) {
+				if isOK(dj, false) {
+					return true
+				}
+			}
+		}
 		if _, ok := p.(ast.Stmt); ok {
 			// the condition of an if is part of the statement: keep climbing only through expressions
 			if ifs, isIf := p.(*ast.IfStmt); !isIf || child != ast.Node(ifs.Cond) {
